@@ -1,6 +1,7 @@
 package main
 
 import (
+	"bytes"
 	"errors"
 	"fmt"
 	"regexp"
@@ -634,14 +635,17 @@ func propC20(c *Ctx) {
 				pred = "any"
 			case k == 1 && !pk:
 				pred = "eq:" + hxs(msgs[r.Intn(len(msgs))])
+				if et != "" && r.Intn(2) == 0 { // the text itself and its near misses (a lenient comparison would forgive them)
+					pred = "eq:" + hxs([]string{et, strings.ToUpper(et), et + "\n", " " + et, et[:len(et)-1], et + " "}[r.Intn(6)])
+				}
 			case k == 2:
-				p := []string{"b", "boom", "bad", "zz", "", "panic: ", "panic: boom", "e"}[r.Intn(8)]
+				p := []string{"b", "boom", "bad", "zz", "", "panic: ", "panic: boom", "e", "B", "Boom", " b", "oom"}[r.Intn(12)]
 				if pk && len(p) > len(et) {
 					p = "panic: "
 				}
 				pred = "pre:" + hxs(p)
 			case k == 3 && !pk:
-				pred = "suf:" + hxs([]string{"m", "boom", "thing", "zz", "", "deep"}[r.Intn(6)])
+				pred = "suf:" + hxs([]string{"m", "boom", "thing", "zz", "", "deep", "M", "Thing", "deep ", "boo"}[r.Intn(10)])
 			case k == 4:
 				pat := []string{"^boom", "o+", "^nomatch", "thing", "^panic: boom", "^bad", "b.d"}[r.Intn(7)]
 				if pk {
@@ -672,8 +676,28 @@ func propC20(c *Ctx) {
 				expData, expNil = []byte{}, false // nil vs empty: differs only for the binary helper
 			}
 		}
-		if r.Intn(6) == 0 {
-			expData, expNil = append(append([]byte{}, data...), '!'), false
+		if r.Intn(5) == 0 {
+			// near misses of every kind: "differing data" means any difference, also one a lenient comparison would forgive
+			d := append([]byte{}, data...)
+			switch r.Intn(7) {
+			case 0:
+				d = append(d, '!')
+			case 1:
+				d = append(d, '\n')
+			case 2:
+				d = append([]byte{' '}, d...)
+			case 3:
+				d = bytes.ToUpper(d)
+			case 4:
+				if len(d) > 0 {
+					d = d[:len(d)-1]
+				}
+			case 5:
+				d = append(append([]byte{'\t'}, d...), ' ')
+			case 6:
+				d = bytes.ReplaceAll(d, []byte(":"), []byte(": "))
+			}
+			expData, expNil = d, false
 		}
 		expVal := val
 		if ukind == "k" {
